@@ -78,6 +78,10 @@ func c06Want(kind string) (outcome, final string) {
 		o, _ := c06Want(strings.TrimSuffix(kind, "-big"))
 		return o, c06Big
 	}
+	if strings.HasSuffix(kind, "-grow") {
+		o, _ := c06Want(strings.TrimSuffix(kind, "-grow"))
+		return o, "new\nsecond line\nthird line\nfourth line"
+	}
 	q := ""
 	if strings.HasPrefix(kind, "sj-") {
 		q = `"`
@@ -108,7 +112,7 @@ func c06Build(c *vfCtx, cs c06Case, n int) (*c06World, []func()) {
 	pre := []vfEntry{{ID: "TestZ - 1", Body: "keep"}}
 	slots := c06Slots(cs)
 	for _, s := range slots {
-		if s.kind == "skip" || strings.HasSuffix(strings.TrimSuffix(s.kind, "-big"), "create") {
+		if s.kind == "skip" || strings.HasSuffix(c06Base(s.kind), "create") {
 			continue
 		}
 		if s.standalone {
@@ -142,12 +146,16 @@ func c06Build(c *vfCtx, cs c06Case, n int) (*c06World, []func()) {
 				if strings.HasSuffix(kind, "match") && !strings.HasSuffix(kind, "mismatch") {
 					val = "old"
 				}
+				if strings.HasSuffix(kind, "-grow") {
+					val = "new\nsecond line\nthird line\nfourth line" // the rewrite changes the number of lines of the file
+					kind = strings.TrimSuffix(kind, "-grow")
+				}
 				if strings.HasSuffix(kind, "-big") {
 					val = c06Big // larger than any buffer a writer might put in between: must still be ONE write (A1)
 					kind = strings.TrimSuffix(kind, "-big")
 				}
 				upd := ""
-				switch strings.TrimPrefix(strings.TrimPrefix(strings.TrimSuffix(kind, "-big"), "sa-"), "sj-") {
+				switch strings.TrimPrefix(strings.TrimPrefix(c06Base(kind), "sa-"), "sj-") {
 				case "mismatch":
 					upd = "false"
 				case "update":
@@ -241,7 +249,7 @@ func c06Check(cs c06Case, w *c06World, x *sched.Exec) string {
 	var preOrder, gotPre []string
 	preOrder = append(preOrder, "TestZ - 1")
 	for _, s := range slots {
-		if s.kind != "skip" && !s.standalone && !strings.HasSuffix(strings.TrimSuffix(s.kind, "-big"), "create") {
+		if s.kind != "skip" && !s.standalone && !strings.HasSuffix(c06Base(s.kind), "create") {
 			preOrder = append(preOrder, s.id)
 		}
 	}
@@ -475,6 +483,11 @@ func c06Gen(c *vfCtx, emit func(c06Case)) {
 				scen([][]string{{e}, {j}}, 3)
 			}
 		}
+		// updates that change the number of lines of the file (line numbers found earlier go stale)
+		for _, k := range []string{"update", "update-grow", "match", "mismatch", "create"} {
+			scen([][]string{{"update-grow"}, {k}}, 2)
+			scen([][]string{{k}, {"update-grow"}}, 2)
+		}
 		// values of ~40 KB: appends and rewrites must stay single atomic writes
 		for _, k := range []string{"create", "update", "match", "create-big", "update-big"} {
 			scen([][]string{{"create-big"}, {k}}, 2)
@@ -566,4 +579,9 @@ func init() {
 		c06Gen(c, emit)
 	}, c06Run)
 	vfDrivers["C06"].race = c06Race
+}
+
+// c06Base strips the value-shape suffixes of a kind.
+func c06Base(kind string) string {
+	return strings.TrimSuffix(strings.TrimSuffix(kind, "-big"), "-grow")
 }
